@@ -1,0 +1,9 @@
+//go:build verif
+
+package blockwise
+
+// VerifC04CacheLengths returns the number of entries of the receiving and of the sending cache
+// (read-only; verification harness of property C04, build tag verif only).
+func (b *BlockWise[C]) VerifC04CacheLengths() (receiving, sending int) {
+	return b.receivingMessagesCache.Length(), b.sendingMessagesCache.Length()
+}
